@@ -373,6 +373,21 @@ def fixed_histories():
         yield {"sources": [prog, prog], "inputs": [inputs, inputs], "ops": ops, "plain": True}
 
 
+def attribute_named_histories():
+    """experiments NAMED like attributes / methods of the evaluator object (recompile, run_experiment, __call__ ...): the name of
+    an experiment is only a name - recompiling such an evaluator to another source must still switch it"""
+    inputs = [M.enc_inputs({"uid": "unit-%d" % j}) for j in range(10)]
+    n = len(inputs)
+    for name in ("recompile", "run_experiment", "__call__", "_checksum", "__init__", "__class__", "__dict__", "source_code"):
+        a = M.program(name, M.ret([(M.lit_str("a%d" % j), "1") for j in range(8)]), salt="A", splitters=["uid"])
+        b = M.program("plain", M.ret([(M.lit_str("b%d" % j), "1") for j in range(8)]), salt="B", splitters=["uid"])
+        ops = [["call", 0, 0, j] for j in range(n)] + [["call", 1, 1, j] for j in range(n)]
+        ops += [["recompile", 0, 1, 0]] + [["call", 0, 1, j] for j in range(n)]        # ev0: <name> -> plain
+        ops += [["recompile", 1, 0, 0]] + [["call", 1, 0, j] for j in range(n)]        # ev1: plain -> <name>
+        ops += [["cycle", 0, 0, 1], ["cycle_nocall", 1, 1, 2], ["new", 0, 0, 3], ["recompile", 2, 1, 4]] + [["call", 2, 1, j] for j in range(n)]
+        yield {"sources": [a, b], "inputs": [inputs, inputs], "ops": ops, "plain": True}
+
+
 def neighbour_histories():
     """two sources that differ only in blanks / after a // / in letter case inside a string: an evaluator cycled A -> B -> A
     must agree with fresh evaluators of A and of B at every stage"""
@@ -402,6 +417,9 @@ def run(ctx, rec):
             return
     if ctx.shard == 0:
         runner.direct_run(ctx, rec, "fixed-histories", fixed_histories(), judge)
+        if rec.violations:
+            return
+        runner.direct_run(ctx, rec, "experiments-named-like-evaluator-attributes", attribute_named_histories(), judge)
         if rec.violations:
             return
     runner.hyp_run(ctx, rec, "in-process-histories", histories(), judge, ctx.n(120, 800))
